@@ -32,6 +32,50 @@ def _c06():
 
 
 # ---------------------------------------------------------------------------------------------
+# forced job partitions (the split of the score matrix over per-job blasters must not change a score)
+# ---------------------------------------------------------------------------------------------
+class _SyncPool:
+    """In-process stand-in for ProcessPoolExecutor: a submitted job runs at once, its Future is complete."""
+
+    def __init__(self, *a, **k):
+        pass
+
+    def __enter__(self):
+        return self
+
+    def __exit__(self, *a):
+        return False
+
+    def submit(self, fn, *args, **kwargs):
+        from concurrent.futures import Future
+        f = Future()
+        try:
+            f.set_result(fn(*args, **kwargs))
+        except BaseException as e:   # noqa
+            f.set_exception(e)
+        return f
+
+
+class ForcedJobs:
+    """Make nblast / nblast_allbyall / nblast_smart split their work into `rows` x `cols` jobs (module attributes
+    `find_batch_partition` / `find_optimal_partition` decide the split; call with n_cores > 1)."""
+
+    def __init__(self, rows, cols):
+        self.rows, self.cols = rows, cols
+
+    def __enter__(self):
+        self.saved = (NF.find_batch_partition, NF.find_optimal_partition, NF.ProcessPoolExecutor)
+        NF.find_batch_partition = lambda *a, **k: (self.rows, self.cols)
+        NF.find_optimal_partition = lambda *a, **k: (self.rows, self.cols)
+        NF.ProcessPoolExecutor = _SyncPool
+        return self
+
+    def __exit__(self, *a):
+        NF.find_batch_partition, NF.find_optimal_partition, NF.ProcessPoolExecutor = self.saved
+        return False
+
+
+# ---------------------------------------------------------------------------------------------
 # history stream
 # ---------------------------------------------------------------------------------------------
 OFFS = [(0, 12, 0), (5, 0, 0), (0, 0, 3), (3, 4, 0), (0, 9, 0), (1, 2, 2), (0.5, 0, 0), (0, 0.25, 0), (40, 0, 0),
